@@ -517,8 +517,8 @@ Qed.
    query literal in one letter case (C14_equivalence_u).  So for every value whose addressee ids lie in iri_dom_u the
    full statements hold with NO hypothesis on the comparison; the correspondence check runs recipients_u against the
    real code on ids outside the plain grammar (harness/c10u.go, wideids.go).  Nothing above is changed or weakened. *)
-From AP.Model Require Import Fold UrlU IriEqU RecipU.
-From AP.Proofs Require Import IriUP RecipUP.
+From AP.Model Require Import Fold UrlU IriEqU RecipU RecipIds IdsIn.
+From AP.Proofs Require Import IriUP RecipUP RecipBlockUP.
 
 (* the older hypothesis is a theorem on the wide domain *)
 Theorem C10_trans_on_domain_u : forall l, forallb iri_dom_u l = true -> trans_on idequ l = true.
@@ -609,6 +609,54 @@ Theorem C10_u_agrees_plain : forall k fs fs1,
   forallb iri_dom (scan_order (scan_lists k fs1)) = true ->
   recipients_u (IObj true k fs) = recipients_m (IObj true k fs).
 Proof. exact recipients_u_plain. Qed.
+
+(* FULL statement (builder b56; C10_u_agrees_plain above takes the Block clause's result as a hypothesis on both sides):
+   no hypothesis on the Block clause.  removeFromAudience looks at the comparison only on the link of the blocked object
+   and the links of the non-nil members of to, bto, cc, bcc, audience ([block_ids], Model/RecipIds.v: empty unless the
+   value is a Block activity with a non-nil object), and it only deletes members, so the keys scanned afterwards are keys
+   of the lists before: two comparisons that agree on the ids that occur give ONE Recipients().  The links the Block
+   clause reads may be empty (an id-less object in a list): [plain_or_empty] = iri_dom or the empty string, on which
+   the two models agree as well (both say that "" equals itself only; Proofs/PlainOrEmptyP.v). *)
+Theorem C10_remove_congruence : forall (e1 e2 : bytes -> bytes -> bool) (S : bytes -> Prop),
+  (forall a b, S a -> S b -> e1 a b = e2 a b) ->
+  forall it l, Forall S (link_of it) -> Forall S (member_links l) -> remove_loop e1 l it = remove_loop e2 l it.
+Proof. exact remove_loop_congr. Qed.
+Theorem C10_recipients_congruence : forall (e1 e2 : bytes -> bytes -> bool) (S : bytes -> Prop),
+  (forall a b, S a -> S b -> e1 a b = e2 a b) ->
+  forall k fs, Forall S (block_ids k fs) -> Forall S (scan_order (scan_lists k fs)) ->
+  recipients e1 (IObj true k fs) = recipients e2 (IObj true k fs).
+Proof. exact recipients_congr_full. Qed.
+Theorem C10_remove_u_agrees_plain : forall l it,
+  forallb plain_or_empty (link_of it ++ member_links l) = true ->
+  remove_from_collection_u l it = remove_from_collection_m l it.
+Proof. exact remove_from_collection_u_plain. Qed.
+Theorem C10_u_agrees_plain_full : forall k fs,
+  forallb plain_or_empty (block_ids k fs) = true ->
+  forallb iri_dom (scan_order (scan_lists k fs)) = true ->
+  recipients_u (IObj true k fs) = recipients_m (IObj true k fs).
+Proof. exact recipients_u_plain_full. Qed.
+(* non-vacuity: a Block activity whose object is addressed in two presentations (as an IRI in upper case with a dot
+   segment in `to`, as an embedded actor in `cc`) among other addressees: the hypotheses hold, the Block clause removes
+   both, and the two models return the same pair *)
+Example C10_example_block_agrees :
+  let X := IIri false (B "https://example.com/users/mallory") in
+  let X' := IIri false (B "HTTPS://EXAMPLE.com/users/./mallory/") in
+  let X'' := IObj true KActor [(F_ID, FStr (B "http://example.com/users/mallory#main")); (F_Type, FStr (B "Person"))] in
+  let Y := IIri false (B "https://example.com/users/alice") in
+  let Z := IObj true KObject [(F_Type, FStr (B "Note"))] in                          (* an id-less member: link "" *)
+  let fs := [(F_ID, FStr (B "https://example.com/activities/9")); (F_Type, FStr (B "Block"));
+             (F_To, FItems (Some [Y; X'; INil; Pub; Z])); (F_CC, FItems (Some [X''; Y])); (F_Object, FItem X)] in
+  length (block_ids KActivity fs) = 7 /\ forallb plain_or_empty (block_ids KActivity fs) = true /\
+  forallb iri_dom (block_ids KActivity fs) = false /\
+  forallb iri_dom (scan_order (scan_lists KActivity fs)) = true /\
+  recip_pre idequ KActivity fs <> Ok fs /\
+  recipients_u (IObj true KActivity fs) = recipients_m (IObj true KActivity fs) /\
+  recipients_u (IObj true KActivity fs)
+  = Ok (iri_items [B "https://example.com/users/alice"; B "https://www.w3.org/ns/activitystreams#Public"],
+        IObj true KActivity
+          [(F_ID, FStr (B "https://example.com/activities/9")); (F_Type, FStr (B "Block"));
+           (F_To, FItems (Some [Y; INil; Pub; Z])); (F_CC, FItems (Some [])); (F_Object, FItem X)]).
+Proof. cbv zeta. repeat split; vm_compute; try reflexivity; discriminate. Qed.
 
 (* non-vacuity: alice written with an escaped letter, with userinfo, in upper case with a dot segment; bob on an IPv6
    literal with zone and port in two letter cases, once as an embedded actor; a path that is not valid UTF-8 raw and
